@@ -331,7 +331,7 @@ def whole_chain_part(c, pid, selftest=True):
     files = ["%s.%d" % (tr, i) for i in range(split)]
     kf, open_known = _known_file(c)
     cmd = [BIN] + [str(a) for a in targs]
-    results, seen = _validate_files(c, pid, files, kf, "whole-chain traces (%d mixed chains of %d blocks + 12 cross-module scenarios)" % (nrand, blocks), cmd)
+    results, seen = _validate_files(c, pid, files, kf, "whole-chain traces (%d mixed chains of %d blocks + 13 cross-module scenarios)" % (nrand, blocks), cmd)
     if all(r.ok for r in results):
         c.add("traces_validated_against_impl", rep.get("behaviours", 0))
     for kid, (fn, line) in sorted(seen.items()):
